@@ -48,6 +48,7 @@ var c12FaultsByKind = map[string][]string{
 	"plain":                {"odd-status-line", "none", "refuse", "blackhole", "fin-at", "rst-at", "bad-status-line", "bad-header", "bad-chunk", "cl-long", "cl-short", "fin-at", "rst-at"},
 	"upstream":             {"odd-status-line", "none", "refuse", "blackhole", "fin-at", "rst-at", "bad-status-line", "bad-header", "bad-chunk", "cl-long", "fin-at"},
 	"connect":              {"none", "refuse", "blackhole", "rst-at-accept"},
+	"connect-tls-term":     {"none", "refuse", "blackhole", "rst-at-accept", "tls-garbage", "tls-close", "cert-expired", "cert-wrongname", "cert-untrusted"},
 	"connect-upstream":     {"none", "refuse", "blackhole", "proxy-reject", "fin-at", "rst-at", "bad-status-line", "proxy-reject"},
 	"connect-upstream-tls": {"none", "refuse", "proxy-reject", "tls-garbage", "tls-close", "cert-expired", "cert-wrongname", "cert-untrusted"},
 	"mitm-upstream":        {"none", "refuse", "blackhole", "proxy-reject", "proxy-reject-cut", "proxy-reject-cut", "fin-at", "rst-at", "bad-status-line"},
@@ -56,7 +57,7 @@ var c12FaultsByKind = map[string][]string{
 
 func genC12(t *tape.Tape, tier string) any {
 	c := &c12Case{}
-	c.Kind = []string{"plain", "upstream", "connect", "connect-upstream", "connect-upstream-tls", "mitm", "mitm-upstream"}[t.Pick(6, 3, 2, 3, 2, 1, 2)]
+	c.Kind = []string{"plain", "upstream", "connect", "connect-upstream", "connect-upstream-tls", "mitm", "mitm-upstream", "connect-tls-term"}[t.Pick(6, 3, 2, 3, 2, 1, 2, 2)]
 	fs := c12FaultsByKind[c.Kind]
 	c.Fault = fs[t.Intn(len(fs))]
 	c.RespKind = []string{"cl", "chunked", "eof"}[t.Pick(4, 4, 1)]
@@ -286,14 +287,14 @@ func runC12(env *core.Env, ci any) {
 	// fault placement at the dial level
 	dialFaultAddr := ""
 	switch c.Kind {
-	case "plain", "connect":
+	case "plain", "connect", "connect-tls-term":
 		dialFaultAddr = ipTarget + ":80"
 	case "mitm":
 		dialFaultAddr = ipTarget + ":443"
 	default:
 		dialFaultAddr = ipUpstream + ":8080"
 	}
-	if c.Kind == "plain" || c.Kind == "connect" || c.Kind == "mitm" {
+	if c.Kind == "plain" || c.Kind == "connect" || c.Kind == "mitm" || c.Kind == "connect-tls-term" {
 		// dedicated port for the faulty target so that healthy exchanges are unaffected
 		dialFaultAddr = ipTarget + ":7777"
 	}
@@ -368,7 +369,7 @@ func runC12(env *core.Env, ci any) {
 			conn.Abort()
 			return
 		}
-		if c.Kind == "mitm" {
+		if c.Kind == "mitm" || c.Kind == "connect-tls-term" {
 			tc, ok := tlsFaultServe(conn, []string{faultHost})
 			if !ok {
 				return
@@ -460,7 +461,7 @@ func runC12(env *core.Env, ci any) {
 	reqBytes := func(tok string, faulty bool) ([]byte, string) {
 		host := tok + ".ok.example"
 		port := ""
-		if faulty && (c.Kind == "plain" || c.Kind == "connect" || c.Kind == "mitm") {
+		if faulty && (c.Kind == "plain" || c.Kind == "connect" || c.Kind == "mitm" || c.Kind == "connect-tls-term") {
 			port = ":7777"
 		}
 		method := "GET"
@@ -471,6 +472,13 @@ func runC12(env *core.Env, ci any) {
 		case isConnect:
 			if port == "" {
 				port = ":80"
+				if c.Kind == "connect-tls-term" {
+					port = ":443"
+				}
+			}
+			if c.Kind == "connect-tls-term" {
+				// the proxy is asked to do the TLS handshake with the target itself and to hand over a clear-text tunnel
+				return []byte(fmt.Sprintf("CONNECT %s%s %s\r\nHost: %s%s\r\nX-Martian-Terminate-Tls: true\r\n\r\n", host, port, proto, host, port)), "CONNECT"
 			}
 			return []byte(fmt.Sprintf("CONNECT %s%s %s\r\nHost: %s%s\r\n\r\n", host, port, proto, host, port)), "CONNECT"
 		case c.Kind == "mitm" || c.Kind == "mitm-upstream":
